@@ -140,6 +140,33 @@ def has_guard(fi, n, pattern, polarity, srcs=None):
     return False
 
 
+def expand(fi, expr, depth=0):
+    """Text of ``expr`` with every local that is assigned exactly once in fi
+    (and is not a parameter) replaced by the expansion of its value."""
+    import copy as _copy
+    counts = fi.assigned_names()
+    single = {}
+    for n in walk_own(fi.node):
+        if isinstance(n, ast.Assign) and len(n.targets) == 1 and isinstance(n.targets[0], ast.Name):
+            nm = n.targets[0].id
+            if counts.get(nm) == 1 and nm not in fi.params:
+                single[nm] = n.value
+
+    class T(ast.NodeTransformer):
+        def __init__(self):
+            self.depth = 0
+
+        def visit_Name(self, node):
+            if isinstance(node.ctx, ast.Load) and node.id in single and self.depth < 8:
+                self.depth += 1
+                out = self.visit(_copy.deepcopy(single[node.id]))
+                self.depth -= 1
+                return out
+            return node
+    e = T().visit(_copy.deepcopy(expr))
+    return ast.unparse(e)
+
+
 def outcome_edges(fi, pattern, polarity):
     """CFG edges (a, b, label) taken exactly when a test whose normal form
     matches ``pattern`` has the truth value ``polarity``."""
